@@ -70,6 +70,13 @@ def note(**kw):
         NOTES.append(kw)
 
 
+def sample(**kw):
+    """Records what the concrete case of this path looks like (evidence samples); active in native replay only."""
+    if REPLAY:
+        kw["_sample"] = True
+        NOTES.append(kw)
+
+
 REGISTRY = []
 
 
